@@ -128,7 +128,9 @@ def run(ctx):
         dests.append(d)
         carriers.append("own")
     ops = ["dest %s %s" % (c.hexs(d), cr) for d, cr in zip(dests, carriers)] + flows
-    impl, log, rc = c.run_harness(ctx, "cmd/keymasterd", "C17", ops)
+    # the thorough stream is ~59 000 requests; on a loaded machine the default 900 s is not enough (seen: 36 438 lines
+    # in 900 s while four lanes and a lake build ran beside it), so the harness gets an hour
+    impl, log, rc = c.run_harness(ctx, "cmd/keymasterd", "C17", ops, timeout=900 if ctx.quick() else 3600)
     if rc != 0 or len(impl) != len(ops):
         ctx.broken.append("harness TestVerifC17 did not complete (exit %d, %d/%d lines)" % (rc, len(impl), len(ops)))
         return c.finish(ctx)
